@@ -19,11 +19,22 @@ def lex_case(text: str, accepted: bool) -> dict:
     from pygments.token import Error
 
     lx = ExplorerScriptLexer()
-    toks = list(lx.get_tokens_unprocessed(text))
+    # a token loop that makes no progress (an empty match at the end of the text, again and again) is recognised by the
+    # number of tokens, long before it has eaten the memory of the machine
+    cap = 50 * (len(text) + 10)
+    toks = []
+    for t0 in lx.get_tokens_unprocessed(text):
+        toks.append(t0)
+        if len(toks) > cap:
+            return {"ok": False, "err": "NoProgress", "msg": f"more than {cap} tokens for {len(text)} characters; the last ones: {toks[-3:]!r}"}
     cat = "".join(t[2] for t in toks)
     pos_ok = all(t[0] == sum(len(u[2]) for u in toks[:i]) for i, t in enumerate(toks)) if len(toks) < 400 else True
     errs = [t[2] for t in toks if t[1] is Error or str(t[1]).startswith("Token.Error")]
-    toks2 = list(lx.get_tokens(text))
+    toks2 = []
+    for t0 in lx.get_tokens(text):
+        toks2.append(t0)
+        if len(toks2) > cap:
+            return {"ok": False, "err": "NoProgress", "msg": f"get_tokens: more than {cap} tokens for {len(text)} characters"}
     cat2 = "".join(t[1] for t in toks2)
     # Pygments' own input normalisation (Lexer._preprocess_lexer_input): BOM dropped, CRLF/CR -> LF,
     # leading/trailing newlines stripped (stripnl), one newline appended (ensurenl)
@@ -59,7 +70,11 @@ def oracle_case(text: str) -> dict:
                 if m:
                     matches.append([rid, pos, m.end() - pos])
             rid += 1
-    real = [[str(t[1]), [ord(c) for c in t[2]]] for t in lx.get_tokens_unprocessed(text)]
+    real = []
+    for t in lx.get_tokens_unprocessed(text):
+        real.append([str(t[1]), [ord(c) for c in t[2]]])
+        if len(real) > 50 * (len(text) + 10):
+            return {"ok": False, "err": "NoProgress", "msg": "the real token loop makes no progress"}
     return {"ok": True, "matches": matches, "real": real}
 
 
